@@ -4,7 +4,7 @@ use rustc_hash::{FxHashMap, FxHashSet};
 
 use std::fs;
 
-use crate::{anyhow_expr, bail_expr};
+use crate::{anyhow_expr, bail, bail_expr};
 
 use super::*;
 
@@ -35,7 +35,12 @@ pub(crate) fn parse_defchordv2(
                 t: ref exprs,
                 span: _,
             }) if matches!(exprs.first(), Some(SExpr::Atom(a)) if a.t == "include") => {
-                let file_name = exprs[1].atom(s.vars()).unwrap();
+                let Some(file_name) = exprs.get(1).and_then(|e| e.atom(s.vars())) else {
+                    return Ok(vec![Err(anyhow_expr!(
+                        &chunk[0],
+                        "include in defchordsv2 must be followed by a file name"
+                    ))]);
+                };
                 let chord_translation = ChordTranslation::create(
                     file_name,
                     &chunk[2],
@@ -43,7 +48,12 @@ pub(crate) fn parse_defchordv2(
                     &chunk[4],
                     &s.layers[0][0],
                 );
-                let chord_definitions = parse_chord_file(file_name).unwrap();
+                let chord_definitions = match parse_chord_file(file_name) {
+                    Ok(defs) => defs,
+                    Err(e) => {
+                        return Ok(vec![Err(anyhow_expr!(&chunk[0], "{}", e.msg))]);
+                    }
+                };
                 let processed = chord_definitions.iter().map(|chord_def| {
                     let chunk = chord_translation.translate_chord(chord_def);
                     parse_single_chord(&chunk, s, &mut all_participating_key_sets)
@@ -191,10 +201,11 @@ fn parse_disabled_layers(disabled_layers: &SExpr, s: &ParserState) -> Result<Vec
 }
 
 fn parse_chord_file(file_name: &str) -> Result<Vec<ChordDefinition>> {
-    let input_data = fs::read_to_string(file_name)
-        .unwrap_or_else(|_| panic!("Unable to read file {}", file_name));
-    let parsed_chords = parse_input(&input_data).unwrap();
-    Ok(parsed_chords)
+    let input_data = match fs::read_to_string(file_name) {
+        Ok(data) => data,
+        Err(e) => bail!("Unable to read chord file {file_name}: {e}"),
+    };
+    parse_input(&input_data)
 }
 
 fn parse_input(input: &str) -> Result<Vec<ChordDefinition>> {
@@ -203,12 +214,12 @@ fn parse_input(input: &str) -> Result<Vec<ChordDefinition>> {
         .filter(|line| !line.trim().is_empty() && !line.trim().starts_with("//"))
         .map(|line| {
             let mut caps = line.split('\t');
-            let error_message = format!(
-                "Each line needs to have an action separated by a tab character, got '{}'",
-                line
-            );
-            let keys = caps.next().expect(&error_message);
-            let action = caps.next().expect(&error_message);
+            let (Some(keys), Some(action)) = (caps.next(), caps.next()) else {
+                bail!(
+                    "Each line needs to have an action separated by a tab character, got '{}'",
+                    line
+                );
+            };
             Ok(ChordDefinition {
                 keys: keys.to_string(),
                 action: action.to_string(),
